@@ -119,6 +119,20 @@ theorem validateShape_top_results_indep (c : Ctx) (i w : Bool) (hab : c.o.abortO
           cases loopE false (constraintFails (c.withWaivers i w).o true) _ (shapeComponents c.sg s.node c.o.advanced) <;>
           cases loopE false (constraintFails c.o true) _ (shapeComponents c.sg s.node c.o.advanced) <;>
           simp [Out.results]
+          intro hs
+          cases c.components with
+          | error e => rfl
+          | ok allComps =>
+            simp only []
+            have h2 := loopE_noabort_results (constraintFails (c.withWaivers i w).o true) (constraintFails c.o true)
+              (fun comp => evalComponent c.toEnv s comp fv) (fun comp => evalComponent c.toEnv s comp fv)
+              (fun _ => rfl) (applicableComponents c.sg allComps s.node)
+            revert h2
+            cases loopE false (constraintFails (c.withWaivers i w).o true) (fun comp => evalComponent c.toEnv s comp fv)
+              (applicableComponents c.sg allComps s.node) <;>
+            cases loopE false (constraintFails c.o true) (fun comp => evalComponent c.toEnv s comp fv)
+              (applicableComponents c.sg allComps s.node) <;>
+            simp [hs]
   cases fuel with
   | zero => simp only [validateShape]; exact key _
   | succ f => simp only [validateShape]; rw [hrec f]; exact key _
@@ -154,6 +168,6 @@ theorem runValidate_results_indep (o : Opts) (i w : Bool) (hab : o.abortOnFirst 
   | error e => rfl
   | ok shapes =>
     simp only []
-    exact validateAll_results_indep ⟨⟨sg, dg, shapes, rx, fun _ _ => none, fun _ => none⟩, { o with focusNodes := if focus = [] then none else some focus }⟩ i w hab shapes none
+    exact validateAll_results_indep ⟨⟨sg, dg, shapes, rx, fun _ _ => none, fun _ => none, findComponents sg, fun _ _ _ _ => none⟩, { o with focusNodes := if focus = [] then none else some focus }⟩ i w hab shapes none
 
 end Pyshacl
